@@ -298,7 +298,8 @@ def big_shape_s(draw, kind):
 
 # view areas with both sides of 32 cells and more (array paths, printing thresholds and integer widths change around there);
 # used with the observation functions that do not trace rays (those have their own large-view checks)
-HUGE_AREAS = [[[-31, 0], [-15, 16]], [[-32, 0], [-16, 16]], [[-39, 0], [-20, 20]], [[-32, 0], [-31, 2]], [[-63, 0], [-16, 16]]]
+HUGE_AREAS = [[[-31, 0], [-15, 16]], [[-32, 0], [-16, 16]], [[-39, 0], [-20, 20]], [[-32, 0], [-31, 2]], [[-63, 0], [-16, 16]],
+              [[-63, 0], [-31, 32]], [[-64, 0], [-32, 32]], [[-70, 0], [-35, 35]], [[-129, 0], [-64, 64]], [[-256, 0], [-128, 128]]]
 
 
 def embed(d, H, W, oy, ox, fill='F'):
